@@ -202,6 +202,31 @@ func toplevel(c *explore.Ctx) {
 	c.Case(map[string]any{"toplevel": name, "payload": len(data), "size": size})
 }
 
+// toplevelScalars: MarshalTo of bare scalar values (by value and by pointer).
+func toplevelScalars(c *explore.Ctx) {
+	kinds := []pgen.Elem{{Kind: pgen.Bool}, {Kind: pgen.Int}, {Kind: pgen.Int32}, {Kind: pgen.Int64}, {Kind: pgen.Uint}, {Kind: pgen.Uint32}, {Kind: pgen.Uint64},
+		{Kind: pgen.Float32}, {Kind: pgen.Float64}, {Kind: pgen.String}, {Kind: pgen.Bytes}, {Kind: pgen.ByteArray, N: 8}}
+	e := kinds[c.Choose(len(kinds))]
+	f := pgen.Field{Elem: e}
+	dom := pgen.FieldDomain(&f, false)
+	v := dom[c.Choose(len(dom))]
+	byPtr := c.Bool()
+	var val any = v.Interface()
+	name := e.String()
+	if byPtr {
+		p := reflect.New(v.Type())
+		p.Elem().Set(v)
+		val = p.Interface()
+		name = "*" + name
+	}
+	size, ok := sweep(c, fmt.Sprintf("top-level %s = %v", name, pgen.Describe(v)), val, false, nil, "toplevel:"+name)
+	c.NontrivialStr("topscalar", name, pgen.Describe(v))
+	c.Outcome(fmt.Sprintf("ok=%v empty=%v", ok, size == 0))
+	if c.WantSample() || c.Failed() {
+		c.Case(map[string]any{"toplevel": name, "value": pgen.Describe(v), "size": size})
+	}
+}
+
 // Spec returns the C16 check.
 func Spec() *explore.Spec {
 	return &explore.Spec{
@@ -211,6 +236,7 @@ func Spec() *explore.Spec {
 				Doc: "message types of 1-2 fields from the C03 palette x numbering patterns x values with <=1 deviation x every destination length 0..Size+3 x {cap==len, cap=len+64 with guard bytes}"},
 			{Name: "ladder", ShardDepth: 2, Body: ladder, Doc: "20 payload positions x payload lengths around the 1/2-byte length prefix boundary x every destination length"},
 			{Name: "toplevel", ShardDepth: 2, Body: toplevel, Doc: "top-level Message / custom / RawMessage values (by value and by pointer) x every destination length"},
+			{Name: "toplevel-scalars", ShardDepth: 2, Body: toplevelScalars, Doc: "bare scalar values of every kind (by value and by pointer) x boundary values x every destination length"},
 		},
 		Rule:        "every (type, value) x every destination length 0..Size+3 x 2 buffer geometries; distinct non-trivial = distinct (type, value) pairs",
 		Assumptions: []string{"Size(v)==len(Marshal(v)) and round-trip correctness are C03's; cases where they fail are skipped here", "bytes of b between n and len(b) are not constrained by the statement"},
